@@ -77,6 +77,11 @@ Theorem C07_full_refuted : ~ C07_full.
 Proof. intros H. specialize (H k1_tree eq_refl). vm_compute in H. discriminate H. Qed.
 Print Assumptions C07_full_refuted.
 
+(* the same in existential form *)
+Theorem C07_dbl_refuted : exists t, wf_script_k1 t = true /\ parse (print_script t) <> Ok t.
+Proof. exists k1_tree. vm_compute. split; [reflexivity|discriminate]. Qed.
+Print Assumptions C07_dbl_refuted.
+
 (* what the printed text of the witness really means *)
 Example C07_k1_reading :
   parse (print_script k1_tree) = Ok [mkStmt [] (EAdd (EDouble (EIdent $"x")) (EOperand 0))].
